@@ -218,6 +218,10 @@ def handleStat (op : String) (a : List String) (impl : String) : Option Verdict 
       | "mono" => (match parseBits par with
           | some [p0, p1] => (some ⟨(data.set 0 p0).set (data.length - 1) p1, shape⟩, fun v => some v)
           | _ => (none, fun _ => none))
+      | "monoip" => (match parseBits par with
+          | some [p0, p1] => (some ⟨(data.set 0 p0).set (data.length - 1) p1, shape⟩,
+              fun v => if k == .sum || k == .f2 || k == .f3 || k == .f4 then none else some v)
+          | _ => (none, fun _ => none))
       | "scale" => (match parseHexNat par with
           | some cb => let c := f64OfBits cb
             (some ⟨data.map (fun x => c * x), shape⟩,
